@@ -791,4 +791,32 @@ Proof.
   - inversion Ep; subst. eapply committed_keeps; [apply keeps_touched; apply chtimes_touched | auto].
 Qed.
 
+(* ---- Put post-condition: when copyFile has written the last byte, the inode it wrote holds exactly x ----
+   (the runner uses OutputFile(out) right after Put returned, without validation) *)
+Theorem put_copy_complete_proof : forall s p c s' k x i off,
+  Inv s -> H_cf_on (st_stored s) -> nth_error (st_procs s) p = Some (PPutCopy k x i off) ->
+  step H s (LStep p c) = Some s' -> nth_error (st_procs s') p = Some (PPutClose k x i) ->
+  exists f', get_file (st_fs s') i = Some f' /\ fdata f' = x.
+Proof.
+  intros s p c s' k x i off (Hn & Hf & HP) Hcf Hnth Hs Hafter.
+  pose proof (H_cf_inj _ Hcf) as Hinj.
+  destruct s as [fs procs st]. cbn [st_fs st_procs st_stored step] in *.
+  rewrite Hnth in Hs. destruct (pstep H c fs (PPutCopy k x i off)) as [[fs' pc'] |] eqn:Ep; [| discriminate].
+  injection Hs as <-. cbn [st_fs st_procs] in *.
+  assert (Hpok : proc_ok fs st (PPutCopy k x i off)). { rewrite Forall_forall in HP. apply HP. eapply nth_error_In; eauto. }
+  rewrite (nth_error_upd_eq _ _ _ _ _ Hnth) in Hafter. injection Hafter as Epc.
+  cbn [proc_ok] in Hpok. destruct Hpok as (Hput & (f & Hg & Ho & Hoff) & Hlast & Hne). pose proof Hput as (Hin & Hw & Hsz).
+  pose proof (dfile_prefix fs st k x i f Hf Hinj Hin Hg Ho) as Hpre.
+  assert (Hlx : (1 <= length x)%nat) by (destruct x; [contradiction | cbn; lia]).
+  unfold pstep, fs_write in Ep. rewrite Hg in Ep.
+  destruct (off <? length x - 1)%nat eqn:El.
+  - destruct (c_n c); [discriminate |]. injection Ep as _ E2. rewrite <- E2 in Epc. discriminate.
+  - apply Nat.ltb_ge in El. injection Ep as E1 _. rewrite <- E1.
+    assert (Hn1 : (off + 1 <= length x)%nat) by lia.
+    destruct (write_at_prefix (fdata f) x off 1 Hpre Hoff Hn1) as (Hp' & Hl1 & Hl2).
+    eexists. split; [eapply get_file_set_eq; eauto |]. cbn [fdata].
+    apply prefix_full; [exact Hp' |]. pose proof (prefix_length _ _ Hp') as Hle.
+    change (length (write_at (fdata f) off (firstn 1 (skipn off x))) = length x). lia.
+Qed.
+
 End WithH.
